@@ -119,7 +119,7 @@ def main(tier, seed):
         meta = {"finding": "D12"} if name == "counter_bounded_by_guard" else {}
         items.append({"id": "shape-" + name, "text": text, "T": None, "goals": goals, "points": "auto",
                       "origin": "fixed shape " + name, "meta": meta})
-    n_gen = 26 if quick else 250
+    n_gen = 26 if quick else 100
     i = -1
     made = 0
     while made < n_gen:
